@@ -342,10 +342,17 @@ pub fn engine_pathguard(rt: &tokio::runtime::Runtime, cases: Vec<Value>, out: &m
     std::fs::create_dir_all(&data).unwrap();
     let ignore_variant = cases.first().and_then(|c| c["outer_ignore"].as_bool()).unwrap_or(false);
     rt.block_on(async {
-        let server = crate::srv::Server::start(data.clone(), sent.root.clone(), None, false).await;
-        let basurl = server.base.clone();
+        // every session keeps a 16 384-slot broadcast channel (about 5 MB) for the life of the server: a fresh authority
+        // on the same store every 100 cases keeps a long run within memory
+        let mut server = crate::srv::Server::start(data.clone(), sent.root.clone(), None, false).await;
+        let mut basurl = server.base.clone();
         let client = reqwest::Client::new();
-        for case in &cases {
+        for (case_no, case) in cases.iter().enumerate() {
+            if case_no > 0 && case_no % 100 == 0 {
+                server.stop().await;
+                server = crate::srv::Server::start(data.clone(), sent.root.clone(), None, false).await;
+                basurl = server.base.clone();
+            }
             sent.reset();
             if ignore_variant {
                 // "active" files outside the root: if they are consulted, answers change
